@@ -99,6 +99,7 @@ type State struct {
 	lastCursorDocs Term
 	entry       *State // state at the entry of the function under contract (for old() in loop invariants)
 	bodyEntered bool
+	condChainOf, condChainAt *ssa.BasicBlock // loop header whose (compound) condition the path is still evaluating, and the block it is in
 	loopHead    map[string]*State
 	loopEntry   map[string]*State
 	loopMark    map[string]int
